@@ -84,7 +84,7 @@ class Collocator:
     # arrays to concatenate the results without problems:
     @property
     def no_pairs(self):
-        return np.array([[], []])
+        return np.array([[], []], dtype=int)
 
     @property
     def no_intervals(self):
